@@ -142,9 +142,32 @@ def fmtDump (l : Loaded) : String := " ".intercalate (fmtDumpWords l)
 def fmtOut (o : Out) : String :=
   if o.err then "x" else (if o.early then "e:" else "n:") ++ pctEnc o.name
 
-def fmtEvent : Event → String
+/-- owners of the nodes of every built direction: (flow, direction) ↦ (node key ↦ `flowGraphName`) -/
+abbrev Owners := List ((String × Dir) × List (String × String))
+
+/-- the processor instance bound to node `k` of direction `d` of flow `f` in the MODEL, printed `<flow>.<key>`:
+    the node was created while the connection list of its owner was processed (`instanceOf`) -/
+def instModel (ow : Owners) (f : String) (d : Dir) (k : String) : String :=
+  let owner := ((ow.find? (·.1 == (f, d))).bind fun e => (e.2.find? (·.1 == k)).map (·.2)).getD f
+  match instanceOf owner k with
+  | some (g, n) => g ++ "." ++ n
+  | none => f ++ "." ++ k
+
+/-- the instance the CONFIGURATION names by node key `k` in flow `f`: `other.key` ⇒ other's `key`; a plain key ⇒
+    the processor of `f` if it declares one, else of the first flow that does (a node of a spliced flow) -/
+def instSpec (c : CfgR) (f k : String) : String :=
+  match keyParts k with
+  | [g, n] => (if g == "" then f else g) ++ "." ++ n
+  | _ =>
+    let declares := fun (d : FlowDeclR) => d.rep.procs.any (·.1 == k)
+    if c.flows.any (fun d => d.rep.name == f && declares d) then f ++ "." ++ k
+    else match c.flows.find? declares with
+      | some d => d.rep.name ++ "." ++ k
+      | none => f ++ "." ++ k
+
+def fmtEvent (ow : Owners) : Event → String
   | .enter f d => "F:" ++ pctEnc f ++ ":" ++ d.str
-  | .exec f k d o => "P:" ++ pctEnc f ++ ":" ++ pctEnc (bareKey k) ++ ":" ++ d.str ++ ":" ++ fmtOut o
+  | .exec f k d o => "P:" ++ pctEnc f ++ ":" ++ pctEnc (instModel ow f d k) ++ ":" ++ d.str ++ ":" ++ fmtOut o
 
 def fmtErr : Option ExecErr → String
   | none => "ok"
@@ -167,9 +190,12 @@ def visible (users : List String) : Event → Bool
   | .enter _ _ => true
   | .exec f _ _ _ => users.contains f
 
-def fmtTxn (users : List String) (r : TxnRes) : String :=
+def fmtTxn (users : List String) (ow : Owners) (r : TxnRes) : String :=
   let t := r.trace.filter (visible users)
-  fmtErr r.err ++ " ev=" ++ joinOr (t.map fmtEvent) ++ " acts=" ++ joinOr (earlyActs t)
+  fmtErr r.err ++ " ev=" ++ joinOr (t.map (fmtEvent ow)) ++ " acts=" ++ joinOr (earlyActs t)
+
+def ownersOf (l : LoadedR) : Owners :=
+  l.flows.flatMap fun p => [((p.2.flow.name, Dir.req), p.2.reqOwner), ((p.2.flow.name, Dir.res), p.2.resOwner)]
 
 def userNames (c : CfgR) : List String := (c.flows.filter (·.kind == .user)).map (·.rep.name)
 
@@ -178,6 +204,7 @@ def userNames (c : CfgR) : List String := (c.flows.filter (·.kind == .user)).ma
 structure RunSt where
   cfg : CfgR := {}
   loaded : Option Loaded := none
+  owners : Owners := []
 
 def allNamed (c : CfgR) (order : List String) : Bool := c.flows.all fun d => order.contains d.rep.name
 
@@ -194,13 +221,13 @@ def runStep (s : RunSt) (line : String) : RunSt × String :=
       -- reference-free: the loader of `Model/C04.lean`
       match load c order with
       | .error e => ({ s with loaded := none }, if single then "reject:" ++ e.str else "reject")
-      | .ok l => ({ s with loaded := some l }, "accept " ++ fmtDump l)
+      | .ok l => ({ s with loaded := some l, owners := [] }, "accept " ++ fmtDump l)
     | none =>
       -- flow references: `Model/C04Ref.lean`; mutually referencing flows are not loaded by the harness
       if refCycle s.cfg.reps then ({ s with loaded := none }, "unsafe-refcycle") else
       match loadR s.cfg order with
       | .error e => ({ s with loaded := none }, if single then "reject:" ++ e.str else "reject")
-      | .ok l => ({ s with loaded := some l.toLoaded }, "accept " ++ " ".intercalate (fmtDumpWordsR l))
+      | .ok l => ({ s with loaded := some l.toLoaded, owners := ownersOf l }, "accept " ++ " ".intercalate (fmtDumpWordsR l))
   | "txn" :: rest =>
     match (kv rest "dir").bind parseDir, (kv rest "o").bind parseOracle with
     | some d, some t =>
@@ -208,7 +235,7 @@ def runStep (s : RunSt) (line : String) : RunSt × String :=
       | none => (s, "not-loaded")
       | some l =>
         if l.unsafeCycle then (s, "unsafe-cycle")
-        else (s, fmtTxn (userNames s.cfg) (runTxn l t.toOracle d))
+        else (s, fmtTxn (userNames s.cfg) s.owners (runTxn l t.toOracle d))
     | _, _ => (s, "bad-op")
   | _ =>
     match cfgStep s.cfg ws with
@@ -270,7 +297,7 @@ def judgeStep (s : JudgeSt) (op out : String) : JudgeSt :=
           let (sc, asym) := match (if s.cfg.flows.any (·.rep.borrows) then none else s.cfg.base?) with
             | some c => (specCfg c s.order, false)
             | none => (specCfgR s.cfg s.order, refDiverges s.cfg)
-          match judgeTxn sc (userNames s.cfg) t.toOracle d tr err with
+          match judgeTxn sc (userNames s.cfg) (instSpec s.cfg) t.toOracle d tr err with
           | none => s
           | some (fid0, msg) =>
             let fid := if fid0 == "-" && asym then "F04f" else fid0
